@@ -340,6 +340,83 @@ def replay_stats_2d(chk, h, h2, consts):
           return
 
 
+def replay_pairs(chk, h, consts):
+  """PairStats.tla: Pearson / reflective r, Tjur's D and its relative form, symmetric prediction difference, calibration histogram,
+  cross entropies - the accumulators are fed batch by batch and once more through merge()."""
+  import numpy as np
+  from ml_metrics._src.aggregates import rolling_stats as agg
+  from ml_metrics._src.metrics import classification as mcls
+  from ml_metrics._src.signals import cross_entropy
+  scale, bins = consts['Scale'], consts['Bins']
+  batches = [([float(p[0]) for p in b], [float(p[1]) for p in b]) for b in h['stream']]
+  desc = f'batches (x, y)={[list(map(tuple, b)) for b in h["stream"]]}'
+  ctx = dict(kind='pair-stats', stream=h['stream'])
+  flat_x = [v for b in batches for v in b[0]]
+  flat_y = [v for b in batches for v in b[1]]
+
+  def fed(make, how, xs_of=lambda x: x, swap=False):
+    acc = make()
+    for x, y in batches:
+      args = (np.asarray(y), np.asarray(xs_of(np.asarray(x)))) if swap else (np.asarray(xs_of(np.asarray(x))), np.asarray(y))
+      if how == 'add':
+        acc.add(*args)
+      else:
+        other = make()
+        other.add(*args)
+        acc.merge(other)
+    return acc
+
+  def judge(name, got, want, undefined_is_nan=True):
+    """want: None (undefined) or a float"""
+    got = float(np.asarray(got).reshape(-1)[0]) if np.asarray(got).size == 1 else got
+    if want is None:
+      if undefined_is_nan and not (isinstance(got, float) and math.isnan(got)):
+        chk.violation(f'pairs:{name}:undefined-not-nan', f'[{desc}] {name} = {got} where the definition has a zero denominator', ctx)
+      return
+    if not close(got, want):
+      chk.violation(f'pairs:{name}', f'[{desc}] {name} = {got}, definition gives {want}', ctx)
+
+  def root(t):      # <<sign, num, den>> of a squared ratio
+    return None if not t else t[0] * math.sqrt(t[1] / t[2])
+
+  def ratio(t):
+    return None if not t else t[0] / t[1]
+
+  with np.errstate(all='ignore'):
+    for how in ('add', 'merge'):
+      try:
+        judge(f'pearson:{how}', fed(lambda: agg.RRegression(), how).result(), root(h['pearson']), undefined_is_nan=False)
+        judge(f'reflective:{how}', fed(lambda: agg.RRegression(center=False), how).result(), root(h['refl']), undefined_is_nan=False)
+        judge(f'spd:{how}', fed(agg.SymmetricPredictionDifference, how).result(), ratio(h['spd']))
+        if h['binary']:
+          judge(f'tjur:{how}', fed(agg.R2Tjur, how, xs_of=lambda x: x / scale, swap=True).result(), ratio(h['tjur']))
+          judge(f'tjur-relative:{how}', fed(agg.R2TjurRelative, how, xs_of=lambda x: x / scale, swap=True).result(), ratio(h['tjur_rel']))
+        if h['calib']:
+          r = fed(lambda: mcls.CalibrationHistogram(range=(0, 1), bins=bins), how, xs_of=lambda x: x / scale, swap=True).result()
+          got = [[int(a), float(b), float(c) * scale] for a, b, c in zip(r.num_examples_hist, r.labels_hist, r.predictions_hist)]
+          if any(g[0] != w[0] or not close(g[1], w[1]) or not close(g[2], w[2]) for g, w in zip(got, h['calib'])) or len(got) != len(h['calib']):
+            chk.violation(f'pairs:calibration-histogram:{how}', f'[{desc}] per bin (count, sum of labels, sum of predictions x{scale}) = {got}, '
+                          f'definition gives {h["calib"]}', ctx)
+      except Exception as e:  # pylint: disable=broad-exception-caught
+        chk.violation(f'pairs:exception:{type(e).__name__}', f'[{desc}] {how}: {e!r}', ctx)
+        return
+    # cross entropies over the raw examples (the logarithms are the replayer's: math.log, one example at a time)
+    if h['binary'] and all(0 < x < scale for x in flat_x):
+      ps = [x / scale for x in flat_x]
+      want = -sum(y * math.log(p) + (1 - y) * math.log(1 - p) for y, p in zip(flat_y, ps)) / len(ps)
+      try:
+        judge('binary-cross-entropy', cross_entropy.binary_cross_entropy(np.asarray(flat_y), np.asarray(ps)), want)
+      except Exception as e:  # pylint: disable=broad-exception-caught
+        chk.violation(f'pairs:binary-cross-entropy:exception:{type(e).__name__}', f'[{desc}] {e!r}', ctx)
+    if h['binary'] and all(x > 0 for x in flat_x):
+      tot = sum(flat_x)
+      want = -sum(y * math.log(x / tot) for y, x in zip(flat_y, flat_x))
+      try:
+        judge('categorical-cross-entropy', cross_entropy.categorical_cross_entropy(np.asarray(flat_y), np.asarray(flat_x)), want)
+      except Exception as e:  # pylint: disable=broad-exception-caught
+        chk.violation(f'pairs:categorical-cross-entropy:exception:{type(e).__name__}', f'[{desc}] {e!r}', ctx)
+
+
 def replay_signals(chk, h):
   import numpy as np
   from ml_metrics._src.signals import flip_masks, topk_accuracy
@@ -466,6 +543,28 @@ def body(chk):
       n2d += 1
       chk.replayed()
   chk.count('stat_streams_2d', n2d)
+  # 3b. two-variable statistics, calibration histogram, cross entropies
+  pc = dict(Xs={0, 1, 3, 4}, Ys={0, 1}, MaxBatches=2, MaxLen=2, Scale=4, Bins=2)
+  plaws = ['CauchySchwarz', 'VarNonNegative', 'ReflBounded', 'PearsonSymmetric', 'TjurInRange', 'SpdInRange', 'CalibCountsAll', 'CalibSums']
+  for label, consts, defs in (('binary labels', pc, None),
+                              ('signed values', dict(pc, Xs='<- mc_Xs', Ys='<- mc_Ys'), dict(mc_Xs='{-2, 1, 3}', mc_Ys='{-1, 2, 3}'))):
+    mc = tlc.run('algebra', 'PairStats', tlc.cfg_text(constants=consts, invariants=plaws, deadlock=False), mc_defs=defs, timeout=1800)
+    chk.add_tlc(mc, f'PairStats/MC/{label}')
+    if not mc.ok:
+      chk.machinery_failure(f'PairStats.tla ({label}) violates {mc.error_name}')
+    gen = tlc.run('algebra', 'PairStats', tlc.cfg_text(constants=consts, invariants=['Emit'], deadlock=False), mc_defs=defs, workers=1, timeout=1800)
+    if not gen.ok:
+      chk.machinery_failure(f'PairStats export ({label}) failed: {gen.error_name}')
+    hs = list(gen.histories)
+    sim = tlc.run('algebra', 'PairStats', tlc.cfg_text(constants=dict(consts, MaxBatches=3, MaxLen=3), invariants=['Emit'], deadlock=False),
+                  mc_defs=defs, workers=1, simulate=f'num={500 if thorough else 80}', depth=4, seed=chk.seed + 5, timeout=1800)
+    hs += sim.histories
+    if not thorough:
+      hs = rnd.sample(hs, min(len(hs), 700))
+    for h in hs:
+      replay_pairs(chk, h, pc)
+      chk.replayed()
+    chk.count(f'pair_streams[{label}]', len(hs))
   # 4. per-example signals
   gc = dict(NClasses=3, MaxScore=4, Thresholds={0, 2, 4})
   glaws = ['TopkMonotone', 'TopkAllAtN', 'TopkExactlyK', 'FlipPartition']
@@ -483,7 +582,7 @@ def body(chk):
   chk.add_samples([dict(tp=1, fp=2, tn=0, fn=1)])
   chk.assumptions += ['exact rationals on the specification side, float comparison with relative tolerance 1e-9 on the implementation side',
                       'square roots and log2 discounts are applied by the harness to the emitted rationals / hit positions',
-                      'text-frequency metrics, calibration histogram, Tjur R^2, Pearson r and the cross-entropy signals are not transcribed (see DESIGN.md)',
+                      'the logarithms of the cross entropies are taken by the replayer (math.log, example by example) over the spec-enumerated inputs',
                       'the prevalence threshold is compared only where tpr and fpr are both defined']
 
 
